@@ -1,1 +1,95 @@
-// Kani harnesses compiled into the real crate under cfg(kani); see /verif/DESIGN.md 2.2
+// Kani harnesses for src/composed/cleartext.rs (child module: sees the private functions).
+// BOUNDED stand-ins (DESIGN.md C16): `&str` algorithms (split_inclusive, strip_prefix,
+// trim_end_matches, rfind) are outside Verus; Kani runs the REAL functions on every text of
+// at most N bytes over the alphabet below.  Never counted as proved.
+#![allow(dead_code, unused_imports)]
+use super::*;
+
+const ALPHABET: [u8; 6] = [b'a', b'-', b' ', b'\t', b'\r', b'\n'];
+
+fn any_text<const N: usize>() -> (Vec<u8>, usize) {
+    let len: usize = kani::any();
+    kani::assume(len <= N);
+    let mut v = Vec::with_capacity(N);
+    let mut i = 0;
+    while i < N {
+        let k: usize = kani::any();
+        kani::assume(k < ALPHABET.len());
+        if i < len {
+            v.push(ALPHABET[k]);
+        }
+        i += 1;
+    }
+    (v, len)
+}
+
+/// RFC 9580 section 7.2 oracle, written on bytes, independent of the code under test:
+/// trailing spaces/tabs of every line removed (a line ends at LF, or CR LF), then every line
+/// ending becomes CR LF.
+fn rfc_signed_form(t: &[u8]) -> Vec<u8> {
+    let mut out = Vec::new();
+    let mut line_start = 0usize;
+    let mut i = 0usize;
+    while i <= t.len() {
+        if i == t.len() || t[i] == b'\n' {
+            // content = t[line_start..i], possibly ending in CR when terminated by LF
+            let mut end = i;
+            let has_lf = i < t.len();
+            let mut had_cr = false;
+            if has_lf && end > line_start && t[end - 1] == b'\r' {
+                end -= 1;
+                had_cr = true;
+            }
+            while end > line_start && (t[end - 1] == b' ' || t[end - 1] == b'\t') {
+                end -= 1;
+            }
+            let mut j = line_start;
+            while j < end {
+                out.push(t[j]);
+                j += 1;
+            }
+            if has_lf {
+                // a CR that trimming exposed directly before the LF forms a CRLF with it
+                if !had_cr && end > line_start && t[end - 1] == b'\r' {
+                    out.push(b'\n');
+                } else {
+                    out.push(b'\r');
+                    out.push(b'\n');
+                }
+            }
+            line_start = i + 1;
+        }
+        i += 1;
+    }
+    out
+}
+
+fn check_text(bytes: &[u8]) {
+    let text = match std::str::from_utf8(bytes) {
+        Ok(t) => t,
+        Err(_) => return,
+    };
+    let esc = dash_escape(text);
+    // (b) no line of the escaped text starts with '-' other than as "- "
+    let eb = esc.as_bytes();
+    let mut i = 0;
+    while i < eb.len() {
+        if (i == 0 || eb[i - 1] == b'\n') && eb[i] == b'-' {
+            assert!(i + 1 < eb.len() && eb[i + 1] == b' ', "unescaped dash at line start");
+        }
+        i += 1;
+    }
+    // (a) what is hashed is the RFC signed form of the ORIGINAL text
+    let signed = signed_text_of(&esc);
+    let want = rfc_signed_form(bytes);
+    assert!(signed.as_bytes() == &want[..], "signed form differs from RFC 9580 7.2");
+}
+
+/// U60 bounded(3): all texts of <= 3 bytes over {a,-,space,tab,CR,LF}
+#[kani::proof]
+#[kani::unwind(12)]
+fn u60_cleartext_signed_form_n3() {
+    let (v, len) = any_text::<3>();
+    check_text(&v[..len]);
+    kani::cover!(len == 3 && v[0] == b'-' && v[2] == b'\n');
+}
